@@ -32,6 +32,23 @@ pub use bytes;
 
 pub(crate) mod util;
 
+#[cfg(rpgp_verif)]
+pub mod verif_hooks;
+
+/// Emits an event to the runtime monitors (only with `--cfg rpgp_verif`).
+#[cfg(rpgp_verif)]
+macro_rules! verif_event {
+    ($site:expr, $a:expr, $b:expr, $c:expr) => {
+        $crate::verif_hooks::emit($site, ($a) as u64, ($b) as u64, ($c) as u64)
+    };
+}
+#[cfg(not(rpgp_verif))]
+macro_rules! verif_event {
+    ($site:expr, $a:expr, $b:expr, $c:expr) => {};
+}
+#[allow(unused_imports)]
+pub(crate) use verif_event;
+
 pub mod adapter;
 pub mod armor;
 pub mod base64;
